@@ -71,6 +71,7 @@ class Dm14World:
         self._srv_thread = sk.spawn(self._server_app, name="server-app")
         self.results = []            # per transaction: dict
         self.client_thread = None
+        self.initial_states = self.peek_states()      # "idle" = whatever the fresh objects report (robust against renames)
 
     # ---- serving application -------------------------------------------------
     def _next_seed(self):
